@@ -7,7 +7,8 @@
      step_inv             every cgio-level operation of variant Cur preserves the invariant
      balanced_fixed       any session, acyclic link graph, every handle closed  ==>  nothing is held
      failing_open_ledger  a failing open leaves the ledger as it was (both variants)
-     refuted_*            witnesses for the code as it is (variant Old)
+     refuted_* / old_*    witnesses for the code before 909ac4d / def473d (variants Old / MOld)
+     cur_cycle_leaks      what is still false of the current code: files linking to each other keep each other open
      mll_*                the MLL table
 *)
 From Coq Require Import Arith List Bool Lia.
@@ -1208,7 +1209,7 @@ Theorem failing_link_open_ledger : forall v fuel w a n a',
   adf_database_open v fuel w a n true = Some (a', None) -> ledger a' = ledger a.
 Proof. intros. eapply adf_open_fail_ledger; eauto. Qed.
 
-(* ============================================================================================ the code as it is *)
+(* ============================================================================================ the code before 909ac4d *)
 (* W1: B = F1 has /D; A = F0 links to B; C = F2 links to A.  A is opened once, C twice; both C handles read through A
    (the first one on to B).  Closing the first C handle closes B although A (still open, still linking to it) remains;
    closing A then reports ADF_FILE_NOT_OPENED (its links[] names the dead slot) AFTER having dropped A's reference, so
@@ -1447,3 +1448,11 @@ Lemma mll_fixed_example :
   exists m, mrun MCur mll_init [] [MOpen OSuccess; MOpen OLateFail; MOpen OSuccess; MClose 1 true; MClose 3 true] = (m, []) /\
             n_open m = 0 /\ held m = [] /\ files m = [] /\ foffset m = 3.
 Proof. eexists. repeat split; reflexivity. Qed.
+
+(* the full statement, without the acyclicity hypothesis, is still false of the CURRENT close (known finding
+   fd:adf-link-cycle-keeps-files-open): reference counts cannot release files that link to each other *)
+Lemma refcount_balanced_cur_refuted : ~ refcount_balanced Cur.
+Proof.
+  intros H. destruct fixA_cycle_leaks as (s & rs & Rn & L & _). destruct (H _ _ _ _ _ Rn) as (_ & Hl & _).
+  rewrite L in Hl. discriminate.
+Qed.
